@@ -42,7 +42,10 @@ def main():
         fx["alarms"] = alarms
         meta["fixed_twin"] = fx
         (d / "meta.json").write_text(json.dumps(meta, indent=1) + "\n")
-        fa = {p: v["findings"] for p, v in alarms.items() if v["exit"] == 1}
+        fe = d / "fixed_expect.json"
+        allowed = json.loads(fe.read_text()) if fe.exists() else {}
+        fx["expected_reports"] = allowed
+        fa = {p: v["findings"] for p, v in alarms.items() if v["exit"] == 1 and p not in allowed}
         und = {p: [f"{o}: {r[:80]}" for o, r in v["undecided"]] for p, v in alarms.items() if v["exit"] == 2}
         s = fx.get("suite", {})
         print(f"{d.name}#fixed: suite={s.get('passed')}p/{s.get('failed')}f demo={fx.get('demo_exit')} FALSE_ALARMS={fa if fa else 'none'} UNDECIDED={und if und else 'none'}")
